@@ -467,6 +467,26 @@ class SObj(Mutable):
         return "SObj<%s %s>" % (getattr(self.cls, "__name__", self.cls), self.name or "")
 
 
+def _memo_get(fn):
+    """Buffer contents are pure functions of the index term: cache per z3 term (chains of in-place
+    updates that read the previous contents would otherwise be re-evaluated exponentially often)."""
+    cache = {}
+
+    def get(j):
+        if isinstance(j, int):
+            j = z3.IntVal(j)
+        k = j.get_id()
+        hit = cache.get(k)
+        if hit is not None and hit[0].eq(j):
+            return hit[1]
+        v = fn(j)
+        if len(cache) > 64:
+            cache.clear()
+        cache[k] = (j, v)
+        return v
+    return get
+
+
 class SBuf(Mutable):
     """Backing store of a numpy array: total function index -> z3 term."""
 
@@ -486,13 +506,13 @@ class SBuf(Mutable):
     def store(self, idx, val):
         old = self.get
         self.writes += 1
-        self.get = lambda j, old=old, idx=idx, val=val: z3.If(j == idx, val, old(j))
+        self.get = _memo_get(lambda j, old=old, idx=idx, val=val: z3.If(j == idx, val, old(j)))
 
     def store_range(self, lo, hi, fn):
         """buf[j] = fn(j) for lo <= j < hi."""
         old = self.get
         self.writes += 1
-        self.get = lambda j, old=old: z3.If(z3.And(j >= lo, j < hi), fn(j), old(j))
+        self.get = _memo_get(lambda j, old=old: z3.If(z3.And(j >= lo, j < hi), fn(j), old(j)))
 
 
 def int_expr(v):
@@ -1847,6 +1867,9 @@ class Interp(object):
                 return not t
             return Sym(z3.Not(t))
         if isinstance(e.op, ast.USub):
+            from . import pymat as _pmat
+            if isinstance(v, _pmat.SMat):
+                return _pmat.mat_map(self, v, lambda x: -x)
             if isinstance(v, SArr):
                 from . import pymodels as _pm
                 return _pm.arr_map(self, v, lambda x: -x)
@@ -1854,6 +1877,9 @@ class Interp(object):
         if isinstance(e.op, ast.UAdd):
             return v
         if isinstance(e.op, ast.Invert):
+            from . import pymat as _pmat
+            if isinstance(v, _pmat.SMat):
+                return _pmat.mat_not(self, v)
             if isinstance(v, SArr):
                 from . import pymodels as _pm
                 return _pm.arr_map(self, v, lambda x: z3.Not(x) if z3.is_bool(x) else -x - 1, kind="bool")
@@ -1878,6 +1904,16 @@ class Interp(object):
             raise OutsideSubset("operator %s on symbolic strings" % sym)
         if sym == "%" and isinstance(a, str) and isinstance(b, tuple) and any(is_str_sym(x) for x in b):
             return str_format(a, b)
+        from . import pymat as _pmat
+        if isinstance(a, _pmat.SMat) or isinstance(b, _pmat.SMat):
+            if op in (ast.BitAnd, ast.BitOr):
+                f = (lambda x, y: z3.And(x, y)) if op is ast.BitAnd else (lambda x, y: z3.Or(x, y))
+                Ra, Ca, ea = _pmat.shape_of(self, a)
+                Rb, Cb, eb = _pmat.shape_of(self, b)
+                R, C = _pmat._bdim(self, Ra, Rb), _pmat._bdim(self, Ca, Cb)
+                return _pmat.build(self, R, C, lambda r, c_: f(ea(_pmat._idx(Ra, r), _pmat._idx(Ca, c_)),
+                                                               eb(_pmat._idx(Rb, r), _pmat._idx(Cb, c_))), "bool")
+            return _pmat.mat_binop(self, sym, a, b, inplace)
         if isinstance(a, SArr) or isinstance(b, SArr):
             from . import pymodels
             if op in (ast.BitAnd, ast.BitOr):
@@ -1938,7 +1974,7 @@ class Interp(object):
                     return False
             elif isinstance(r, Sym):
                 conj.append(bool_expr(r))
-            elif isinstance(r, SArr):
+            elif isinstance(r, SArr) or type(r).__name__ == "SMat":
                 if len(e.ops) != 1:
                     raise OutsideSubset("chained array comparison")
                 return r
@@ -1964,6 +2000,9 @@ class Interp(object):
             return r
         sym = {ast.Lt: "<", ast.LtE: "<=", ast.Gt: ">", ast.GtE: ">=", ast.Eq: "==",
                ast.NotEq: "!="}[type(op)]
+        from . import pymat as _pmat
+        if isinstance(a, _pmat.SMat) or isinstance(b, _pmat.SMat):
+            return _pmat.mat_compare(self, sym, a, b)
         if isinstance(a, SArr) or isinstance(b, SArr):
             from . import pymodels
             return pymodels.array_compare(self, sym, a, b)
@@ -2205,7 +2244,8 @@ class Interp(object):
             raise IRaise(AttributeError("%r has no attribute %s" % (obj, name)))
         if isinstance(obj, pymodels.NanCheck) and name in ("any", "all"):
             return pymodels.LibMethod(lambda it, a, k, f=obj.flag: Sym(f), "isnan.any")
-        if isinstance(obj, (SArr, SList, SDict, Sym)) or (isinstance(obj, (str, tuple, float, int)) and False):
+        from . import pymat as _pmat
+        if isinstance(obj, (SArr, SList, SDict, Sym, _pmat.SMat)) or (isinstance(obj, (str, tuple, float, int)) and False):
             return pymodels.method(self, obj, name, default)
         try:
             v = getattr(obj, name)
